@@ -205,9 +205,61 @@ def malformed(ctx):
     return viol, n
 
 
+def reuse_probe(ctx, which):
+    """region OBJECTS that are updated in place (as the design space does round after round, down to tiny late-run
+    scales) must answer exactly as freshly constructed regions with the same centre / covariance / scale do: the
+    predicates are functions of the displayed regions, not of the objects' history.  `which` = 'dominated' | 'covered'."""
+    import random
+    from vopy.confidence_region import (EllipsoidalConfidenceRegion, RectangularConfidenceRegion,
+                                        confidence_region_is_dominated, confidence_region_is_covered)
+    pred = confidence_region_is_dominated if which == "dominated" else confidence_region_is_covered
+    rng = random.Random(4100 + ctx.seed)
+    npr = np.random.RandomState(4100 + ctx.seed)
+    viol, n = [], 0
+    cones = [("orthant2", gen.CONES_2D["orthant2"][0]), ("acute2", gen.CONES_2D["acute2"][0]), ("obtuse2", gen.CONES_2D["obtuse2"][0]),
+             ("redundant2", gen.CONES_2D["redundant2"][0]), ("acute3", gen.CONES_3D["acute3"][0]), ("four3", gen.CONES_3D["four3"][0])]
+    for trial in range(6 if ctx.quick else 60):
+        cn, W = cones[trial % len(cones)]
+        m = len(W[0]); order = impl.order_from_W(W)
+        for kind in ("ell", "rect"):
+            A = EllipsoidalConfidenceRegion(m) if kind == "ell" else RectangularConfidenceRegion(m)
+            B = EllipsoidalConfidenceRegion(m) if kind == "ell" else RectangularConfidenceRegion(m)
+            for scale in (1.0, 1e-1, 1e-2, 1e-3, 1e-4, 5e-5, 1e-5, 1e-4):
+                regs = []
+                for _ in range(2):
+                    M = npr.randn(m, m)
+                    cov = (M @ M.T + 0.05 * np.eye(m)) * scale * scale
+                    c = npr.randn(m) * scale * 1.5
+                    regs.append((c, cov, float(rng.choice([1.0, 1.5, 2.0]))))
+                slack = rng.choice([0.0, 0.25 * scale])
+                for obj, (c, cov, a) in zip((A, B), regs):
+                    obj.update(c.copy(), cov.copy(), np.array(a))
+                if kind == "ell":
+                    FA, FB = [EllipsoidalConfidenceRegion(m, c.copy(), cov.copy(), a) for c, cov, a in regs]
+                else:
+                    FA, FB = RectangularConfidenceRegion(m), RectangularConfidenceRegion(m)
+                    for obj, (c, cov, a) in zip((FA, FB), regs):
+                        obj.update(c.copy(), cov.copy(), np.array(a))
+                n += 1
+                try:
+                    got, want = bool(pred(order, A, B, slack)), bool(pred(order, FA, FB, slack))
+                except Exception as e:
+                    viol.append({"signature": f"region-object-history-dependence:{which}", "message": f"{kind} region updated in place: is_{which} raised {type(e).__name__} at scale {scale}", "replay": {"reuse": which, "kind": kind}})
+                    break
+                if got != want:
+                    viol.append({"signature": f"region-object-history-dependence:{which}",
+                                 "message": f"{kind} regions updated in place (scales 1 .. {scale}, cone {cn}): is_{which} answers {got}, freshly constructed regions with the same centre / covariance / scale answer {want}",
+                                 "replay": {"reuse": which, "kind": kind, "cone": cn, "scale": scale}})
+                    break
+    return viol, n
+
+
 def run(ctx):
     cases = gen_cases(ctx)
     viol, stats = evaluate(ctx, cases)
+    rv, rn = reuse_probe(ctx, "dominated")
+    viol = viol + rv
+    stats["in_place_update_queries"] = rn
     mv, nm = malformed(ctx)
     distinct = {common.sha(common.json.dumps({k: v for k, v in c.items() if k != "Wf"}, default=str)) for c in cases}
     nontriv = stats["rect_true"] + stats["rect_false"] + stats["ell_true"] + stats["ell_false"]
@@ -219,6 +271,9 @@ def run(ctx):
 
 def replay(ctx, data):
     r = data["replay"]
+    if "reuse" in r:
+        rv, _ = reuse_probe(ctx, r["reuse"])
+        return bool(rv), (rv[0]["message"] if rv else "in-place updated regions answer as fresh ones")
     if "W" not in r:
         mv, _ = malformed(ctx)
         return bool(mv), (mv[0]["message"] if mv else "slack shapes rejected")
